@@ -95,6 +95,14 @@ func (db *DB) VerifState() VerifState {
 	return st
 }
 
+// VerifVersionID returns the id of the current version (-1 if none).
+func (db *DB) VerifVersionID() int64 {
+	if db.s == nil || db.s.stVersion == nil {
+		return -1
+	}
+	return db.s.stVersion.id
+}
+
 // VerifMemEntries returns the internal keys and values held in the write buffer (which=0)
 // or the frozen buffer (which=1).
 func (db *DB) VerifMemEntries(which int) (keys, vals [][]byte) {
